@@ -495,7 +495,10 @@ namespace occa {
     }
 
     if (enum_) {
-      return enum_->toJson(j, name);
+      enum_->toJson(j, name);
+      // The size of an enum cannot be derived from its enumerators
+      j["bytes"] = bytes_;
+      return;
     } else if (struct_) {
       return struct_->toJson(j, name);
     } else if (tuple_) {
@@ -539,6 +542,8 @@ namespace occa {
       dtype = builtin;
     } else if (type == "enum") {
       dtype.enum_ = dtypeEnum_t::fromJson(j).clone();
+      // Missing in files written by older versions: stays 0
+      dtype.bytes_ = (int) j["bytes"];
     } else if (type == "struct") {
       dtype.struct_ = dtypeStruct_t::fromJson(j).clone();
       // The JSON format doesn't store the size, recompute it the way addField does
